@@ -77,7 +77,8 @@ func init() {
 			bk.PFaultKind = 30
 			bk.PLocPC = 12
 			bk.PRepeat = 25 // the same function registered again (other scope / rejected duplicate)
-			bk.PErr2 = 8    // functions with two error results: the callback's Error must lead to one of them
+			bk.PSysClock = 10
+			bk.PErr2 = 8 // functions with two error results: the callback's Error must lead to one of them
 			bk.WInvoke, bk.WDecorate = 8, 3
 			bk.PDeep, bk.PChain = 70, 50
 			bk.MaxOps = 20
